@@ -400,9 +400,12 @@ class AnsiSqlDialect:
         result = sql_ansi_type
         if (sql_ansi_type[0] == "int") and (len(sql_ansi_type) >= 2):
             limit = sql_ansi_type[1]
-            if (limit is not None) and (limit > MAX_BIGINT):
-                # No integer type of any implementation can store such a number.
-                result = ("decimal", _tools.length_of_int(limit + 1), 0)
+            if limit is not None:
+                if limit > MAX_BIGINT:
+                    # No integer type of any implementation can store such a number.
+                    result = ("decimal", _tools.length_of_int(limit + 1), 0)
+                elif limit > MAX_INTEGER:
+                    result = ("bigint", limit)
         return result
 
     def sql_string_escaped(self, text):
